@@ -12,6 +12,7 @@ import (
 	"sort"
 	"strings"
 	"sync"
+	"time"
 	"unicode/utf8"
 
 	"github.com/IBM/sarama"
@@ -187,6 +188,12 @@ func c19One(c []string) string {
 	var got []*sarama.ProducerMessage
 	drained := make(chan struct{})
 	go func() {
+		if nrecs > 530 {
+			// a broker that stalls: nothing is taken off the producer for 1.3 s while more
+			// records are handed over than its channels buffer (256 inputs + 256 successes).
+			// Every record must still be published, in order, once it moves again.
+			time.Sleep(1300 * time.Millisecond)
+		}
 		for m := range mock.Successes() {
 			got = append(got, m)
 		}
@@ -474,6 +481,16 @@ func runC19(env *Env) {
 	for i := 0; i < n; i++ {
 		env.Count("stream/well-formed")
 		run(c19Stream(env))
+	}
+	// one message with more records than the producer's channels hold, against a stalled broker
+	{
+		var sb strings.Builder
+		fmt.Fprintf(&sb, "1 flows utf8ok M 1700000000 7 1 - D 600")
+		for i := 0; i < 600; i++ {
+			fmt.Fprintf(&sb, " 1 %s u64 %d -", BytesArg([]byte("octetDeltaCount")), 1000+i)
+		}
+		env.Count("backlog/producer-input-stalled")
+		run(sb.String())
 	}
 	// varint boundaries on every numeric field kind, both schemas
 	for _, conv := range []string{"1", "2"} {
